@@ -32,10 +32,11 @@ def suite(wt):
 
 def main(argv):
 	do_suite = '--suite' in argv
+	reverify = '--seeded' in argv   # re-verify what is filed under /verif/seeded (e.g. after a rebase) instead of /tmp/seedout
 	ids = [a for a in argv if not a.startswith('--')]
 	base_failed = None
 	for sid in ids:
-		src = os.path.join(SEEDOUT, sid)
+		src = os.path.join(DEST if reverify else SEEDOUT, sid)
 		wt = '/tmp/sv-%s' % sid
 		res = {'id': sid}
 		sh('git -C /repo worktree remove --force %s' % wt)
@@ -69,8 +70,9 @@ def main(argv):
 			if ok:
 				dst = os.path.join(DEST, sid)
 				os.makedirs(dst, exist_ok=True)
-				shutil.copy(os.path.join(src, 'patch.rebased.diff') if os.path.exists(os.path.join(src, 'patch.rebased.diff')) else os.path.join(src, 'patch.diff'), os.path.join(dst, 'patch.diff'))
-				shutil.copy(os.path.join(src, 'demo.py'), os.path.join(dst, 'demo.py'))
+				if not reverify:
+					shutil.copy(os.path.join(src, 'patch.rebased.diff') if os.path.exists(os.path.join(src, 'patch.rebased.diff')) else os.path.join(src, 'patch.diff'), os.path.join(dst, 'patch.diff'))
+					shutil.copy(os.path.join(src, 'demo.py'), os.path.join(dst, 'demo.py'))
 				try:
 					meta = json.load(open(os.path.join(src, 'meta.json')))
 				except Exception:
